@@ -167,6 +167,12 @@ func runC38(c *core.Ctx) error {
 			ev, res := g.run(pc)
 			c.Case(pc.Key, pc.Nontrivial)
 			c.Trace()
+			if strings.HasPrefix(res, "panic(") {
+				// the property is about programs, not histories: a panic that escaped an evaluation
+				// of the classic interpreter (which has no counterpart of the fast interpreter's
+				// clean-up, C12) must not colour the programs that follow
+				g = nil
+			}
 			if c38Conforms(pc, ev, res) {
 				continue
 			}
